@@ -56,6 +56,9 @@ func main() {
 		process.VerifSink = &raceSink{profile: []string{"gosched", "sleep", "none"}[os.Getpid()%3]}
 	}
 	process.VerifTcSink = tcs
+	if !raceMode {
+		process.VerifBeatSink = beat
+	}
 	in := bufio.NewReaderSize(os.Stdin, 1<<20)
 	for {
 		line, err := in.ReadBytes('\n')
@@ -360,10 +363,15 @@ func doRun(j *sup.Job, res *sup.Result) {
 	cap := captureStdout()
 	t0 := time.Now()
 	top := map[chan process.Message]bool{}
+	unsettled := false // nobody was running at the cancel, yet a communication was enabled
 
 	if j.Entry == "init" {
 		// the real entry point with its 50 ms heartbeat
+		takeBeat(re) // a reused environment starts afresh
 		process.InitializeProcesses(procs, nil, nil, re)
+		if e, t, n, ok := takeBeat(re); ok {
+			rr.TimerExpired, rr.ExpirySilenceUs, rr.TimeoutUs, rr.Beats = true, e, t, n
+		}
 		rr.Quiescent = true
 		rr.Live = convLive(theSink.snapshot(rs, top))
 		for _, l := range rr.Live {
@@ -374,8 +382,9 @@ func doRun(j *sup.Job, res *sup.Result) {
 		// cancelled although a communication was still enabled (a message in a buffer whose
 		// receiver is parked, a sender and a receiver parked on one channel, an unserved control
 		// message): the receiving goroutine had not been scheduled for 50 ms
-		if ok, _ := theSink.stable(rs); !ok {
+		if ok, _ := theSink.stable(rs); !ok && !rr.Premature {
 			rr.Premature = true
+			unsettled = true
 		}
 	} else {
 		chans := re.CreateChannelForEachProcess(procs)
@@ -455,7 +464,7 @@ func doRun(j *sup.Job, res *sup.Result) {
 	rr.Fingerprint = rs.fp
 	rr.Rules = rs.rules
 	rr.Kinds = rs.kinds
-	if g := time.Since(rs.lastStep); g > rs.maxGap && rr.Premature == false {
+	if g := time.Since(rs.lastStep); g > rs.maxGap && (rr.Premature == false || unsettled) {
 		rs.maxGap = g
 	}
 	rr.MaxStepGapUs = rs.maxGap.Microseconds()
@@ -561,4 +570,46 @@ func modeTable(seed uint64) *sup.ModeTable {
 	t.Spell["<fullstrings>"] = strings.Join([]string{ms[0].FullString(), ms[1].FullString(), ms[2].FullString(), ms[3].FullString()}, ",")
 	t.Spell["<default>"] = types.DefaultMode().String()
 	return t
+}
+
+// ---- heartbeat receiver, observed from inside its own goroutine ----
+
+type beatState struct {
+	mu       sync.Mutex
+	last     map[*process.RuntimeEnvironment]time.Time
+	expiryUs map[*process.RuntimeEnvironment]int64 // silence the receiver itself saw before its timer fired
+	timeout  map[*process.RuntimeEnvironment]int64
+	beats    map[*process.RuntimeEnvironment]int64
+}
+
+var beats = &beatState{last: map[*process.RuntimeEnvironment]time.Time{}, expiryUs: map[*process.RuntimeEnvironment]int64{}, timeout: map[*process.RuntimeEnvironment]int64{}, beats: map[*process.RuntimeEnvironment]int64{}}
+
+func beat(re *process.RuntimeEnvironment, expired bool, timeout time.Duration) {
+	now := time.Now()
+	beats.mu.Lock()
+	defer beats.mu.Unlock()
+	if !expired {
+		beats.last[re] = now
+		beats.beats[re]++
+		return
+	}
+	if t, ok := beats.last[re]; ok {
+		beats.expiryUs[re] = now.Sub(t).Microseconds()
+	} else {
+		beats.expiryUs[re] = -1 // no heartbeat was ever received
+	}
+	beats.timeout[re] = timeout.Microseconds()
+}
+
+// takeBeat returns and forgets what was recorded for re.
+func takeBeat(re *process.RuntimeEnvironment) (expiryUs, timeoutUs, n int64, expired bool) {
+	beats.mu.Lock()
+	defer beats.mu.Unlock()
+	expiryUs, expired = beats.expiryUs[re]
+	timeoutUs, n = beats.timeout[re], beats.beats[re]
+	delete(beats.last, re)
+	delete(beats.expiryUs, re)
+	delete(beats.timeout, re)
+	delete(beats.beats, re)
+	return
 }
